@@ -14,6 +14,11 @@ R07c run-start agreement: the two sites that begin a run (Start._run and the las
      Restart._run: they set _runstate_started = True and call set_run_id) perform the same resets:
      Run Time := 0.0, Process Time := 0.0, Method Status := OK, emit_on_start.
 Decides which states let the clocks advance; the numeric increments are not decided.
+R07d unconditional delivery (call model of the emitter verified): the machine treats every emit_on_<event>() call as
+     delivered to the clock tags. In EventEmitter every emit_* method whose event the Block/Scope Time gate listens to
+     (on_runstate_change, on_start, on_stop, on_tick, scope/block events) reaches its fan-out loop over self._listeners
+     on every path from entry (no early return, no "already sent" filter - a remembered last event is not reset at run
+     boundaries, so the first Pause of the next run would be swallowed and the clocks keep counting while Paused).
 """
 from __future__ import annotations
 
@@ -204,3 +209,31 @@ def run(ctx) -> None:
             continue
         ctx.fail("R07b", tick, tick.node, f"reachable state sys={key[0]} with Block/Scope Time counting",
                  f"history: {hist} | state: {show(s)}", function="openpectus.engine (run-state machine)")
+
+    # ---- R07d
+    ctx.rule("R07d", "emit_* methods the clock gate depends on deliver unconditionally")
+    ee = prog.cls("openpectus.lang.exec.events:EventEmitter")
+    clock_events = set()
+    for cn in ("BlockTimeTag", "ScopeTimeTag"):
+        c = prog.cls(f"openpectus.lang.exec.tags_impl:{cn}")
+        clock_events |= {m for m in c.methods if m.startswith("on_")}
+    n_d = 0
+    for name, m in sorted(ee.methods.items()):
+        if not name.startswith("emit_on_") or ("on_" + name[len("emit_on_"):]) not in clock_events:
+            continue
+        n_d += 1
+        ctx.analysed(m)
+        gm = cfg_of(m)
+        loops = [n for n in gm.nodes if n.kind == "for" and "_listeners" in norm(n.ast.iter)]
+        inst = f"EventEmitter.{name}: fan-out loop reached on every path"
+        if not loops:
+            ctx.fail("R07d", m, m.node, inst, "no loop over self._listeners: the event is not delivered")
+            continue
+        p = gm.path_to_exit_avoiding(None, lambda n, loops=loops: any(n.id == lp.id for lp in loops), follow_exc=False)
+        if p is None:
+            ctx.ok("R07d", inst)
+        else:
+            ctx.fail("R07d", m, m.node, inst, "a path returns without delivering the event to the listeners (conditional delivery): the "
+                     "Block/Scope Time gate misses a Pause/Hold/Start/Stop signal and keeps counting while the run is not Running", p)
+    if n_d < 4:
+        raise AnchorError(f"only {n_d} clock-relevant emit_* methods found (floor 4)")
